@@ -464,4 +464,302 @@ fn accepted_checks(c: &Command) -> Vec<(&'static str, String)> {
     out
 }
 
-include!("drive_kip_checks.rs");
+// ---------------------------------------------------------------------------------------------------------------
+// case evaluation
+
+struct Ctx {
+    tables: Tables,
+    /// token lists of the tree cases by id (bases of the mutations)
+    bases: HashMap<u64, Vec<Value>>,
+}
+
+#[derive(Default)]
+struct CaseOut {
+    mismatches: Vec<Value>,
+    parses: u64,
+    texts: u64,
+    accepted: u64,
+    variants: u64,
+    max_ms: u128,
+}
+impl CaseOut {
+    fn push(&mut self, kind: &str, case: &Value, variant: &str, text: &str, detail: String) {
+        self.mismatches.push(json!({
+            "mismatch": kind, "case": case, "variant": variant,
+            "text": text.chars().take(500).collect::<String>(), "text_len": text.len(), "detail": detail,
+        }));
+    }
+}
+
+fn shape_of(c: &Command) -> Vec<String> {
+    let v = serde_json::to_value(c).unwrap_or(Value::Null);
+    let names = |arr: &Value| -> Vec<String> {
+        arr.as_array()
+            .map(|a| {
+                a.iter()
+                    .map(|x| match x {
+                        Value::String(s) => s.clone(),
+                        Value::Object(o) => o.keys().next().cloned().unwrap_or_default(),
+                        _ => "?".into(),
+                    })
+                    .collect()
+            })
+            .unwrap_or_default()
+    };
+    match c {
+        Command::Kql(_) => {
+            let mut s = vec!["Kql".to_string()];
+            s.extend(names(&v["Kql"]["where_clauses"]));
+            s
+        }
+        Command::Kml(k) => {
+            let mut s = vec!["Kml".to_string(), if k.explicit_transaction { "explicit" } else { "single" }.to_string()];
+            s.extend(names(&v["Kml"]["clauses"]));
+            s
+        }
+        Command::Meta(_) => {
+            let inner = &v["Meta"];
+            let (name, body) = match inner {
+                Value::String(s) => (s.clone(), Value::Null),
+                Value::Object(o) => o.iter().next().map(|(k, b)| (k.clone(), b.clone())).unwrap_or_default(),
+                _ => ("?".into(), Value::Null),
+            };
+            let mut s = vec!["Meta".to_string(), name];
+            s.extend(names(&body["where_clauses"]));
+            s
+        }
+    }
+}
+
+fn budget_over(case_secs: u64, t0: Instant) -> bool {
+    t0.elapsed() > Duration::from_secs(case_secs)
+}
+
+/// A sentence with a verdict from KipGrammar.tla.
+fn check_tree(cx: &Ctx, case: &Value, out: &mut CaseOut) -> Result<(), String> {
+    let toks = case["toks"].as_array().ok_or("case without toks")?;
+    let id = json!({"id": case["id"], "fam": case["fam"], "verdict": case["verdict"], "peak": case["peak"]});
+    let salt = case["id"].as_u64().unwrap_or(0) as usize;
+    let text = render(&cx.tables, toks, Variant::Canon, salt)?;
+    let has_pad = toks.iter().any(|x| x[0] == "pad");
+    if !has_pad && text.len() > MAX_LEN {
+        return Err(format!("case {} renders to {} bytes: the specification assumed it is within the length limit", case["id"], text.len()));
+    }
+    let verdict = case["verdict"].as_str().unwrap_or("");
+    let t0 = Instant::now();
+    let f = four(&text);
+    let again = four(&text);
+    out.parses += 8;
+    out.texts += 1;
+    let ms = t0.elapsed().as_millis();
+    out.max_ms = out.max_ms.max(ms);
+    for (name, a, b) in [("parse_kip", &f.kip, &again.kip), ("parse_kql", &f.kql, &again.kql), ("parse_kml", &f.kml, &again.kml), ("parse_meta", &f.meta, &again.meta)] {
+        if !a.same(b) {
+            out.push("nondeterministic", &id, "canonical", &text, format!("{name}: {} then {}", a.brief(), b.brief()));
+        }
+        if let Obs::Panic(m) = a {
+            out.push("panic", &id, "canonical", &text, format!("{name} panicked: {m}"));
+        }
+    }
+    // expected classes of the four entry points
+    let exp = &case["exp"];
+    for (name, key, o) in [("parse_kip", "kip", &f.kip), ("parse_kql", "kql", &f.kql), ("parse_kml", "kml", &f.kml), ("parse_meta", "meta", &f.meta)] {
+        let want = exp[key].as_str().unwrap_or("?");
+        if o.class() != want {
+            let kind = if want == "refused" || o.class() == "refused" { "budget" } else { "class" };
+            out.push(kind, &id, "canonical", &text, format!("{name}: the specification says {want}, the parser says {} - {}", o.class(), o.brief()));
+        }
+    }
+    if verdict == "budget" {
+        let j = json_class(&text);
+        out.parses += 1;
+        if j != "refused" {
+            out.push("budget", &id, "canonical", &text, format!("parse_json: the specification says refused, the parser says {j}"));
+        }
+    }
+    if let Some(why) = agree(&f) {
+        out.push("agreement", &id, "canonical", &text, why);
+    }
+    // whatever was accepted, by whichever entry point, must re-validate and survive serde
+    for (name, o) in [("parse_kip", &f.kip), ("parse_kql", &f.kql), ("parse_kml", &f.kml), ("parse_meta", &f.meta)] {
+        if let Obs::Ok(c) = o {
+            if name == "parse_kip" || !matches!(f.kip, Obs::Ok(_)) {
+                out.accepted += 1;
+                for (kind, detail) in accepted_checks(c) {
+                    out.push(kind, &id, "canonical", &text, format!("{name}: {detail}"));
+                }
+            }
+        }
+    }
+    if verdict == "ok" {
+        if let Obs::Ok(c) = &f.kip {
+            let want: Vec<String> = case["shape"].as_array().unwrap().iter().map(|s| s.as_str().unwrap().to_string()).collect();
+            let got = shape_of(c);
+            if got != want {
+                out.push("shape", &id, "canonical", &text, format!("the specification says {want:?}, the parsed tree shows {got:?}"));
+            }
+            // metamorphic variants: keyword case, inter-token whitespace, comments
+            if !has_pad && text.len() <= 64 * 1024 {
+                for v in VARIANTS {
+                    let vt = render(&cx.tables, toks, v, salt)?;
+                    let o = guard(|| parse_kip(&vt), |c| c);
+                    out.parses += 1;
+                    out.variants += 1;
+                    match &o {
+                        Obs::Ok(c2) if c2 == c => {}
+                        Obs::Ok(_) => out.push("metamorphic", &id, &format!("{v:?}"), &vt, "parses to a different tree than the canonical spelling".into()),
+                        other => out.push("metamorphic", &id, &format!("{v:?}"), &vt, format!("canonical spelling is accepted, this one gives {}", other.brief())),
+                    }
+                }
+            }
+        }
+    }
+    Ok(())
+}
+
+fn apply_mutation(base: &[Value], m: &Value) -> Result<Vec<Value>, String> {
+    let n = base.len();
+    let kind = m[0].as_str().ok_or("mutation without kind")?;
+    let i = m[1].as_u64().ok_or("mutation without position")? as usize;
+    let mut v: Vec<Value> = base.to_vec();
+    match kind {
+        "del" => {
+            v.remove(i - 1);
+        }
+        "dup" => v.insert(i, base[i - 1].clone()),
+        "swap" => v.swap(i - 1, i),
+        "trunc" => v.truncate(i),
+        "flip" => v[i - 1] = json!(["flip", base[i - 1]]),
+        "ins" => v.insert(i - 1, json!(["raw", m[2]])),
+        other => return Err(format!("unknown mutation {other}")),
+    }
+    let _ = n;
+    Ok(v)
+}
+
+/// A mutated sentence: the specification decides the budget verdict only.
+fn check_mut(cx: &Ctx, case: &Value, out: &mut CaseOut) -> Result<(), String> {
+    let base = cx.bases.get(&case["base"].as_u64().unwrap_or(0)).ok_or("mutation of an unknown base")?;
+    let toks = apply_mutation(base, &case["m"])?;
+    if toks.len() as u64 != case["n"].as_u64().unwrap_or(u64::MAX) {
+        return Err(format!("mutation {} of base {} gives {} tokens here, {} in the specification", case["m"], case["base"], toks.len(), case["n"]));
+    }
+    let text = render(&cx.tables, &toks, Variant::Canon, 0)?;
+    let id = json!({"base": case["base"], "m": case["m"], "verdict": case["verdict"], "peak": case["peak"]});
+    let t0 = Instant::now();
+    let f = four(&text);
+    let again = four(&text);
+    let j = json_class(&text);
+    out.parses += 9;
+    out.texts += 1;
+    out.max_ms = out.max_ms.max(t0.elapsed().as_millis());
+    for (name, a, b) in [("parse_kip", &f.kip, &again.kip), ("parse_kql", &f.kql, &again.kql), ("parse_kml", &f.kml, &again.kml), ("parse_meta", &f.meta, &again.meta)] {
+        if !a.same(b) {
+            out.push("nondeterministic", &id, "mutated", &text, format!("{name}: {} then {}", a.brief(), b.brief()));
+        }
+        if let Obs::Panic(m) = a {
+            out.push("panic", &id, "mutated", &text, format!("{name} panicked: {m}"));
+        }
+    }
+    let refused = case["verdict"] == "budget";
+    for (name, cls) in [("parse_kip", f.kip.class()), ("parse_kql", f.kql.class()), ("parse_kml", f.kml.class()), ("parse_meta", f.meta.class()), ("parse_json", j)] {
+        if (cls == "refused") != refused {
+            out.push("budget", &id, "mutated", &text, format!("{name}: the specification says {}, the parser says {cls}", if refused { "refused before parsing" } else { "within budget" }));
+        }
+    }
+    if j == "panic" {
+        out.push("panic", &id, "mutated", &text, "parse_json panicked".into());
+    }
+    if let Some(why) = agree(&f) {
+        out.push("agreement", &id, "mutated", &text, why);
+    }
+    for (name, o) in [("parse_kip", &f.kip), ("parse_kql", &f.kql), ("parse_kml", &f.kml), ("parse_meta", &f.meta)] {
+        if let Obs::Ok(c) = o {
+            if name == "parse_kip" || !matches!(f.kip, Obs::Ok(_)) {
+                out.accepted += 1;
+                for (kind, detail) in accepted_checks(c) {
+                    out.push(kind, &id, "mutated", &text, format!("{name}: {detail}"));
+                }
+            }
+        }
+    }
+    Ok(())
+}
+
+// ---------------------------------------------------------------------------------------------------------------
+// lexical words (MC_KipBudget)
+
+const XCHARS: [char; 24] = ['a', 'Z', '0', ' ', '_', ',', ':', '?', 'é', '🦀', '\t', '.', '-', '|', '=', '!', '<', '&', '\'', ';', '@', '\u{0}', '\r', '日'];
+const BR_PAIRS: [[(char, char); 2]; 6] = [
+    [('(', ')'), ('[', ']')],
+    [('(', ')'), ('{', '}')],
+    [('[', ']'), ('(', ')')],
+    [('[', ']'), ('{', '}')],
+    [('{', '}'), ('(', ')')],
+    [('{', '}'), ('[', ']')],
+];
+
+fn lex_text(alpha: &[String], w: &[u64], k: usize, rep: usize, salt: usize) -> String {
+    let pair = BR_PAIRS[salt % 6];
+    let mut s = String::new();
+    for (i, a) in w[..k].iter().enumerate() {
+        match alpha[*a as usize - 1].as_str() {
+            "lp" => s.extend(std::iter::repeat_n(pair[0].0, rep)),
+            "lb" => s.extend(std::iter::repeat_n(pair[1].0, rep)),
+            "rp" => s.extend(std::iter::repeat_n(pair[0].1, rep)),
+            "rb" => s.extend(std::iter::repeat_n(pair[1].1, rep)),
+            "q" => s.push('"'),
+            "bs" => s.push('\\'),
+            "sl" => s.push('/'),
+            "nl" => s.push('\n'),
+            _ => s.push(XCHARS[(salt / 6 + i * 7) % XCHARS.len()]),
+        }
+    }
+    s
+}
+
+fn check_lex(alpha: &[String], case: &Value, out: &mut CaseOut) -> Result<(), String> {
+    let w: Vec<u64> = case["w"].as_array().ok_or("lex case without w")?.iter().map(|x| x.as_u64().unwrap()).collect();
+    let cut: Vec<u64> = case["cut"].as_array().ok_or("lex case without cut")?.iter().map(|x| x.as_u64().unwrap()).collect();
+    let n = w.len();
+    let salt = w.iter().fold(0usize, |h, x| h.wrapping_mul(31).wrapping_add(*x as usize));
+    for k in 1..=n {
+        // a proper prefix is exercised once: by the word that continues it with first symbols only
+        if k < n && w[k..].iter().any(|x| *x != 1) {
+            continue;
+        }
+        let c = cut[k - 1] as usize;
+        let reps: Vec<usize> = if c == 0 { vec![1, 65, 1000] } else { vec![1, c - 1, c, 1000] };
+        for rep in reps {
+            if rep == 0 {
+                continue;
+            }
+            let refused = c != 0 && rep >= c;
+            let text = lex_text(alpha, &w, k, rep, salt);
+            let id = json!({"w": w, "prefix": k, "rep": rep, "cut": c});
+            let f = four(&text);
+            let j = json_class(&text);
+            out.parses += 5;
+            out.texts += 1;
+            for (name, cls) in [("parse_kip", f.kip.class()), ("parse_kql", f.kql.class()), ("parse_kml", f.kml.class()), ("parse_meta", f.meta.class()), ("parse_json", j)] {
+                if cls == "panic" {
+                    out.push("panic", &id, "lex", &text, format!("{name} panicked"));
+                } else if (cls == "refused") != refused {
+                    out.push("budget", &id, "lex", &text, format!("{name}: the specification says {}, the parser says {cls}", if refused { "refused before parsing" } else { "within budget" }));
+                }
+            }
+            if let Some(why) = agree(&f) {
+                out.push("agreement", &id, "lex", &text, why);
+            }
+            for o in [&f.kip, &f.kql, &f.kml, &f.meta] {
+                if let Obs::Ok(cmd) = o {
+                    out.accepted += 1;
+                    for (kind, detail) in accepted_checks(cmd) {
+                        out.push(kind, &id, "lex", &text, detail);
+                    }
+                }
+            }
+        }
+    }
+    Ok(())
+}
